@@ -314,12 +314,17 @@ func judge(c *Ctx, kind string, sp childSpec, r childResult, wantGuard string) {
 		c.Fail(kind+":deadline-overrun", cs, fmt.Sprintf("evaluation took %.0f ms with a %d ms deadline (front end alone %.0f ms, source %d bytes)",
 			r.rep.WallMs, sp.DurMs, r.rep.ParseMs, r.rep.SrcLen))
 	}
-	ratio := float64(r.peakkB) / float64(memLimitkB)
+	limitkB := float64(memLimitkB)
+	if strings.HasSuffix(r.memLimit, "GiB") {
+		g, _ := strconv.Atoi(strings.TrimSuffix(r.memLimit, "GiB"))
+		limitkB = float64(g) * 1024 * 1024
+	}
+	ratio := float64(r.peakkB) / limitkB
 	if ratio > maxRSSRatio {
 		maxRSSRatio = ratio
 	}
-	if float64(r.peakkB) > rssFactor*float64(memLimitkB)+float64(rssBasekB) {
-		c.Fail(kind+":rss-over", cs, fmt.Sprintf("peak RSS %d kB with GOMEMLIMIT %s", r.peakkB, memLimitStr))
+	if float64(r.peakkB) > rssFactor*limitkB+float64(rssBasekB) {
+		c.Fail(kind+":rss-over", cs, fmt.Sprintf("peak RSS %d kB with GOMEMLIMIT %s", r.peakkB, r.memLimit))
 	}
 	first := ""
 	if len(r.rep.Errs) > 0 {
@@ -408,7 +413,7 @@ func lf(s string) ex { return ex{s, leafG} }
 func wrap(r *Rng, e ex, v string) ex {
 	switch r.Intn(13) {
 	case 0:
-		return ex{"1 + " + e.src, &G{K: 'I', A: leafG, B: e.g}}
+		return ex{"1 + (" + e.src + ")", &G{K: 'I', A: leafG, B: e.g}} // parenthesised: + is left associative
 	case 1:
 		return ex{"(" + e.src + ") * 2", &G{K: 'I', A: e.g, B: leafG}}
 	case 2:
@@ -428,7 +433,7 @@ func wrap(r *Rng, e ex, v string) ex {
 	case 9:
 		return ex{"[" + e.src + "][0]", &G{K: 'X', A: &G{K: 'Y', L: []*G{e.g}}, B: leafG}}
 	case 10:
-		return ex{"idf(1 + " + e.src + ")", &G{K: 'C', A: leafG, L: []*G{{K: 'I', A: leafG, B: e.g}}, L2: []*G{leafG}}}
+		return ex{"idf(1 + (" + e.src + "))", &G{K: 'C', A: leafG, L: []*G{{K: 'I', A: leafG, B: e.g}}, L2: []*G{leafG}}}
 	default:
 		return e
 	}
@@ -611,7 +616,7 @@ func sweepPrograms() []prog {
 		{"sprintf-double", `s="ab"; for true {s=sprintf("%s%s",s,s)}`, "memory deadline"},
 		{"join-double", `a=["abcdefgh"*1000]*200; for true {a=a+[join(a)]}`, "memory deadline"},
 		{"image-new-loop", `n=0; for true {image.new(str(n),1024,1024); n=n+1}`, "memory deadline"},
-		{"image-curve-far", `image.new("i",8,8); image.move_to("i",0,0); image.quad_to("i",1e18,1e18,9e18,9e18); 1`, "error"},
+		{"image-curve-far", `image.new("i",8,8); image.move_to("i",0,0); image.quad_to("i",1e18,1e18,9e18,9e18); 1`, "error deadline"},
 	}
 }
 
@@ -741,7 +746,8 @@ func lastLine(r childResult) string { return r.rep.Res }
 func knownFindings(c *Ctx) {
 	// (a) statement / block nesting is not counted by the depth guard: Go stack overflow kills the process
 	//     (compact formatting, otherwise (b') strikes first)
-	sp := childSpec{Gen: "if", N: 400000, MaxDepth: 100, DurMs: 1000, Compact: true}
+	// (the deadline must outlast parsing and printing, else the very first evalInternal already returns the context error)
+	sp := childSpec{Gen: "if", N: 400000, MaxDepth: 100, DurMs: 20000, Compact: true}
 	judge(c, "nested-source-if-compact", sp, runChild(c, sp, "4GiB", 60*time.Second), "")
 	// (b) the deadline does not cover the front end: a few MB of nested text take seconds to parse, on a Go
 	//     stack of hundreds of MB that no guard accounts for
